@@ -64,6 +64,17 @@ class World:
             self.sk += 1
             self.marks.append(self.now + 2000)
 
+    def conflict_service_exact(self):
+        if self.last:
+            nm = inst(self.last[0], self.last[1], self.sk)
+            self.lines.append("DELIVER 4:3232235777|5353|0|1|0||" + srv_rec(nm))
+            self.sk += 1
+
+    def conflict_host_exact(self):
+        nm = hc.cand(self.local, self.hk)
+        self.lines.append("DELIVER 4:3232235777|5353|0|1|0||" + hc.arec(nm, 1, "4:9"))
+        self.hk += 1
+
     def conflict_host(self):
         k = self.hk + self.rng.choice([0, 0, 1, -1])
         nm = hc.cand(self.local, max(1, k))
@@ -115,8 +126,50 @@ class World:
         self.lines.append("ADV %d" % self.now)
 
 
+def scenario(rng, w):
+    """structured multi-step histories that random choice rarely assembles"""
+    kind = rng.choice(["reconfirm", "hostchange", "aba", "reprobe-update"])
+    w.lines.append("ADV 2000")
+    w.now = 2000
+    w.update()
+    if kind == "reconfirm":
+        # the requested name is defended: confirmed as -2; a later update asks for the same name again
+        w.conflict_service_exact()
+        w.settle()
+        w.query()
+        w.update(same=True)
+        if rng.random() < 0.8:
+            w.conflict_service_exact()
+        w.settle()
+    elif kind == "hostchange":
+        w.settle()
+        w.now = 1802000 + rng.choice([0, 1, 1000])
+        w.lines.append("ADV %d" % w.now)
+        w.hk = 1
+        w.conflict_host_exact()
+        if rng.random() < 0.3:
+            w.update(same=True)
+        w.settle()
+    elif kind == "aba":
+        w.settle()
+        w.update()
+        if rng.random() < 0.5:
+            w.now += rng.choice([0, 1, 1999])
+            w.lines.append("ADV %d" % w.now)
+        w.update()
+        w.settle()
+    else:
+        w.settle()
+        w.now = 1802000 + rng.choice([0, 1, 1999])
+        w.lines.append("%s %d" % (rng.choice(["ADV", "ADVB", "LATE"]), w.now))
+        w.update(same=rng.random() < 0.5)
+        w.settle()
+
+
 def gen_script(rng, nops, focus):
     w = World(rng, rng.choice(["vm", "vm", "my.host"]))
+    if rng.random() < 0.3:
+        scenario(rng, w)
     for _ in range(nops):
         r = rng.random()
         if not w.alive:
@@ -165,13 +218,14 @@ def signature(kind, detail, s):
 def explore(ctx, focus, mon_engine, attribute, replay=None, search_boost=False, project=None):
     rng = ctx.rng
     iftok = hc.iface_table(ctx)
+    fcode = str((int(focus[1:]) - 9) * 10)
     if replay:
         txt = open(replay).read()
         m = re.search(r"=== \S+ provider[^\n]*\n(.*?)\n(?:\n---|\Z)", txt, flags=re.S)
-        scripts = [Script("replay", "provider", [l for l in (m.group(1) if m else txt).splitlines() if l.strip() and not l.startswith("=")], [iftok])]
+        scripts = [Script("replay", "provider", [l for l in (m.group(1) if m else txt).splitlines() if l.strip() and not l.startswith("=")], [iftok, fcode])]
     else:
         n = (800 if ctx.tier == "quick" else 30000) * (4 if search_boost else 1)
-        scripts = [Script("g%d" % i, "provider", gen_script(rng, rng.randrange(2, 22), focus), [iftok]) for i in range(n)]
+        scripts = [Script("g%d" % i, "provider", gen_script(rng, rng.randrange(2, 22), focus), [iftok, fcode]) for i in range(n)]
     res = explore_scripts(ctx, scripts, mon_engine=mon_engine, classify=signature, attribute=attribute, project=project)
     res["rule"] = ("histories of update (new name / type / port / attributes, back-to-back or hours apart), conflicting responses for "
                    "service and host candidates (current, previous, next; same name other type), queries of every kind with known-answer "
